@@ -311,6 +311,14 @@ def systematic_sources(basic):
             for zero in ("0", "0:00"):          # the SAVE column of a standard-time rule may be spelled either way
                 ph = [("Rule", "PH", fy, "max", "-", a[0], a[1], a[2], a[3], a[4]), ("Rule", "PH", fy, "max", "-", b[0], b[1], b[2], zero, b[4])]
                 src([("PH", ph)], [(hm(off + 7), "-", "LMT", "1980"), (hm(off), "PH", "H%sT")], "%s/policy-starts-%d/save-%s" % (h, fy, zero))
+        # (H2) ... and a second standard-time rule with another LETTER that starts later but ends earlier than the first one:
+        # the time before the first rule takes the LETTER of the earliest standard-time rule
+        for fy in (2003, 2005):
+            ph = [("Rule", "PH", fy, "max", "-", a[0], a[1], a[2], a[3], a[4]), ("Rule", "PH", fy, "max", "-", b[0], b[1], b[2], "0", b[4]),
+                  ("Rule", "PH", fy + 2, fy + 3, "-", "Sep", "1", "2:00", "0", "X")]
+            for rev in (False, True):
+                src([("PH", ph if not rev else [ph[2], ph[0], ph[1]])], [(hm(off + 7), "-", "LMT", "1980"), (hm(off), "PH", "H%sT")],
+                    "%s/policy-starts-%d/second-standard-letter%s" % (h, fy, "-first-in-file" if rev else ""))
         # (K) era changes just before / at / after the first and the last instant of the database range
         if not basic:
             for form in ("1999 Dec 31 20:00", "1999 Dec 31 24:00", "2000 Jan 1 0:00", "2000 Jan 1 3:00", "1999 Dec 1", "2049 Dec 31 20:00", "2050 Jan 1 0:00"):
@@ -337,6 +345,10 @@ def systematic_sources(basic):
         # (O) abbreviations of exactly six characters (the documented maximum) from each kind of FORMAT
         src([("PA", pa)], [(hm(off + 7), "-", "LMT", "1980"), (hm(off), "PA", "ABCD%sT", "2009"), (hm(off), "1:00", "ABCDEF", "2012"),
                            (hm(off), "PA", "AB/ABCDEF")], "%s/six-character-abbreviations" % h)
+        # (P) a FORMAT with a STD/DST pair in eras whose RULES column is '-' or a fixed amount (the half is chosen by the era's SAVE)
+        src([("PA", pa)], [(hm(off + 7), "-", "LMT", "1980"), (hm(off), "PA", "A%sT", "2005"), (hm(off), "1:00", "EET/EEST", "2010"),
+                           (hm(off + 60), "-", "CET/CEST", "2015"), (hm(off), "PA", "AST/ADT", "2020"), (hm(off), "0:30", "XST/XHT")],
+            "%s/slash-format-with-fixed-rules" % h)
         if not basic:
             po = [("Rule", "PO", 1985, "max", "-", a[0], a[1], a[2], a[3], "DE"), ("Rule", "PO", 1985, "max", "-", b[0], b[1], b[2], b[3], "S")]
             src([("PO", po)], [(hm(off + 7), "-", "LMT", "1980"), (hm(off), "PO", "ABC%sT", "2009 Jul 1"), (hm(off + 60), "PO", "%sWXYZ")],
